@@ -12,6 +12,9 @@ CHECKS = {
  "C17": ("exploration", "reference-model monitor over exhaustive small-scope reader states + codec round trips (M-panic, M-alloc)",
          "Every packet of <=6 bytes over a 6-symbol boundary alphabet x every position x 53 operations x both byte orders is executed on the real Buffer and compared with an independent reference model (closure over positions covers operation sequences of any depth); random longer packets/sequences; VarInt round trip over 2^24 (quick) / all 2^32 (thorough) integers; all <=5-byte VarInt encodings over an 11-symbol alphabet against a reference decoder; string codec round trips and hostile length prefixes. Held = no disagreement, panic or out-of-packet position on what was executed.",
          "Reference model written from the property statement; std integer/UTF-8/UTF-16 conversions trusted; format-ambiguous inputs observe-only (listed in evidence assumptions).", "4 C17"),
+ "C02": ("exploration", "differential monitor: independent A2S server model (encoder) vs the real decoder over the scripted transport; M-panic/M-step",
+         "Random server states (all 32 EDF masks, 9 engine classes, both info layouts, The Ship) are encoded by a server model written from the specification as single/Source-split/GoldSrc-split/bzip2-split datagrams with 0-3 challenge rounds, served by a reactive scripted server, and valve::query / the per-game modules must return the expected response field for field. Held = equality on every execution (quick 1.2e5, thorough 1.5e6).",
+         "Server model (DESIGN Appendix A.1) is the trusted reference; Q1/Q2 layout questions follow the implementation; bzip2 payloads from /usr/bin/bzip2.", "4 C02"),
 }
 NOT_YET = {}
 for i in range(1, 21):
